@@ -4,6 +4,7 @@ go 1.23
 
 require (
 	github.com/caddyserver/caddy/v2 v2.8.4
+	github.com/mastercactapus/proxyprotocol v0.0.4
 	github.com/mholt/caddy-l4 v0.0.0
 	github.com/miekg/dns v1.1.62
 	go.uber.org/zap v1.27.0
@@ -53,7 +54,6 @@ require (
 	github.com/klauspost/cpuid/v2 v2.2.7 // indirect
 	github.com/libdns/libdns v0.2.2 // indirect
 	github.com/manifoldco/promptui v0.9.0 // indirect
-	github.com/mastercactapus/proxyprotocol v0.0.4 // indirect
 	github.com/mattn/go-colorable v0.1.13 // indirect
 	github.com/mattn/go-isatty v0.0.20 // indirect
 	github.com/mgutz/ansi v0.0.0-20200706080929-d51e80ef957d // indirect
